@@ -259,19 +259,30 @@ pub fn gen_meta_content(rng: &mut Rng, out: &mut String) {
     for _ in 0..rng.small(3) {
         out.push_str(rng.pick_str(&junk));
     }
+    if rng.chance(1, 60) {
+        // a long value: the charset parameter lies beyond (or across) a size threshold
+        let n = near_threshold(rng).min(9_000);
+        let filler = *rng.pick(&["x", "x", "é", "中", "; ", "a=b;"]);
+        let start = out.len();
+        while out.len() - start + filler.len() <= n.saturating_sub(rng.below(12)) {
+            out.push_str(filler);
+        }
+    }
     let mut kw = String::new();
     rand_case(rng, "charset", &mut kw);
     if rng.chance(1, 10) {
         kw.truncate(rng.below(7));
     }
     out.push_str(&kw);
+    // whitespace written literally or as a character reference (a CR survives only that way)
+    const WS: &[&str] = &[" ", "\t", "\n", "\x0C", "\r", " ", "\t", "&#13;", "&#xD;", "&#9;", "&#10;", "&#12;", "&#32;", "&#x20;", "&#xA;", "&#11;", "\u{a0}"];
     for _ in 0..rng.small(2) {
-        out.push(*rng.pick(&[' ', '\t', '\n', '\x0C', '\r']));
+        out.push_str(rng.pick_str(WS));
     }
     if rng.chance(5, 6) {
         out.push('=');
         for _ in 0..rng.small(2) {
-            out.push(*rng.pick(&[' ', '\t', '\n']));
+            out.push_str(rng.pick_str(WS));
         }
         let label = *rng.pick(&["utf-8", "UTF-8", "latin1", "x", "", "windows-1252", "a b"]);
         match rng.below(6) {
@@ -543,6 +554,8 @@ fn gen_node(rng: &mut Rng, out: &mut String, depth: usize) {
         17 | 18 => gen_comment(rng, out),
         19 => gen_doctype(rng, out),
         20 => gen_cdata(rng, out),
+        21 if rng.chance(1, 10) => gen_select_scenario(rng, out),
+        21 if rng.chance(1, 20) => gen_frameset_scenario(rng, out),
         21 => {
             // table / select / formatting skeletons that stress the adoption agency etc.
             let skel = *rng.pick(&[
@@ -604,6 +617,20 @@ fn gen_node(rng: &mut Rng, out: &mut String, depth: usize) {
                 "<b><table><b></b><td></b>",
                 "<i><b><table></i></b>x",
                 "<form><svg><form></svg></form>",
+                // form owner set + foreign elements named like form controls
+                "<form><svg><input>",
+                "<form><math><button>",
+                "<form><svg><select></svg><input>",
+                "<table><form><svg><textarea>",
+                "<form><math><mi><input></mi><fieldset>",
+                "<form><svg><object><output><img>",
+                // Noah's ark: the 4th identical formatting element evicts the 1st from the list
+                "<b><b><b><b>x</b></b></b>",
+                "<i><b><b><b><b></b><div>x</i>",
+                "<p><b><b><b><b>x</b></b></b><script></script>y",
+                "<a><font><font><font><font><p></a>",
+                "<table><b><b><b><b><tr></b>x",
+                "<nobr><i><i><i><i><i></nobr><div></i>",
                 "<button><svg><button>",
                 "<li><svg><li></svg><li>",
                 "<dd><math><dt></math><dt>",
@@ -655,6 +682,274 @@ fn gen_node(rng: &mut Rng, out: &mut String, depth: usize) {
             }
         },
     }
+}
+
+/// Sizes near the thresholds that block-wise scans, small-vector spills, caps and 8 / 16-bit
+/// counters hang on: 2^k - 3 ..= 2^k + 3 for k in 5..=17.
+pub fn near_threshold(rng: &mut Rng) -> usize {
+    let k = match rng.weighted(&[3, 2, 1, 2, 1, 3, 1, 3, 1, 2, 1, 3, 1]) {
+        0 => 5,
+        1 => 6,
+        2 => 7,
+        3 => 8,
+        4 => 9,
+        5 => 10,
+        6 => 11,
+        7 => 12,
+        8 => 13,
+        9 => 14,
+        10 => 15,
+        11 => 16,
+        _ => 17,
+    };
+    ((1i64 << k) + rng.range(0, 6) as i64 - 3).max(1) as usize
+}
+
+/// Counts of siblings / attributes / open elements near 16, 32, 64 ...
+pub fn near_count(rng: &mut Rng) -> usize {
+    *rng.pick(&[4usize, 8, 9, 15, 16, 17, 30, 31, 32, 33, 34, 35, 40, 63, 64, 65, 66, 100, 130, 255, 256, 257])
+}
+
+/// A run of `len` bytes (about) of text without markup: one filler (ASCII, all two-byte, all
+/// three-byte or mixed), optional line breaks with a fixed period, and a multi-byte character
+/// lying across byte `len` of the run.
+pub fn long_run(rng: &mut Rng, len: usize, out: &mut String) {
+    let kind = rng.below(6);
+    let period = *rng.pick(&[0usize, 0, 0, 1, 2, 4, 8, 16, 16, 3, 64, 100]);
+    let nl = *rng.pick(&["\n", "\n", "\n", "\r\n", "\r"]);
+    let start = out.len();
+    let back = rng.below(4); // how far before `len` the straddling character starts
+    let mut i = 0usize;
+    while out.len() - start + 4 + back < len {
+        if period > 0 && i % period == period - 1 {
+            out.push_str(nl);
+        } else {
+            out.push(match kind {
+                0 | 1 => (b'a' + (i % 26) as u8) as char,
+                2 => 'é',
+                3 => '中',
+                4 => *rng.pick(&['x', 'é', '中', 'y', ' ']),
+                _ => 'x',
+            });
+        }
+        i += 1;
+    }
+    while out.len() - start + back < len {
+        out.push('y');
+    }
+    out.push(*rng.pick(&['😀', '😀', '中', 'é', 'z']));
+    for _ in 0..rng.small(4) {
+        out.push(*rng.pick(&['t', ' ', '\n', 'é', '\r']));
+    }
+}
+
+/// A customizable-select scene: where the selectedcontent elements sit (in the button, loose in
+/// the select, inside an option, behind a table that foster-parents), which options are selected
+/// and which end tags are written out is all drawn.
+pub fn gen_select_scenario(rng: &mut Rng, out: &mut String) {
+    out.push_str(rng.pick_str(&["<select>", "<select>", "<select multiple>", "<div><select>", "<table><select>", "<form><select>"]));
+    let mut open_table = false;
+    for _ in 0..rng.range(2, 7) {
+        match rng.below(12) {
+            0 | 1 => {
+                out.push_str("<button><selectedcontent");
+                if rng.chance(1, 2) {
+                    out.push_str(" id=1");
+                }
+                out.push('>');
+                out.push_str(rng.pick_str(&["", "old", "<i>o</i>"]));
+                out.push_str(rng.pick_str(&["</selectedcontent></button>", "</selectedcontent></button>", "</button>", ""]));
+            },
+            2 => {
+                out.push_str("<selectedcontent id=2>");
+                out.push_str(rng.pick_str(&["", "x", "</selectedcontent>", "</selectedcontent>"]));
+            },
+            3..=6 => {
+                out.push_str(rng.pick_str(&["<option selected>", "<option selected>", "<option>", "<option selected=a id=o>"]));
+                for _ in 0..rng.small(3) {
+                    out.push_str(rng.pick_str(&["a", "b c", "<b>x</b>", "<i>", "<selectedcontent></selectedcontent>", "<selectedcontent>in</selectedcontent>", "<!--c-->", "&amp;", "<div>d</div>", "<svg><g/></svg>"]));
+                }
+                out.push_str(rng.pick_str(&["</option>", "</option>", "</option>", ""]));
+            },
+            7 => out.push_str(rng.pick_str(&["<optgroup>", "</optgroup>", "<optgroup label=l>"])),
+            8 => out.push_str(rng.pick_str(&["<div>", "</div>", "<hr>", "<datalist>", "</datalist>", "<span>"])),
+            9 => {
+                if open_table {
+                    out.push_str(rng.pick_str(&["</td></tr>", "</table>", "<tr><td>", "</td></tr></table>"]));
+                } else {
+                    out.push_str(rng.pick_str(&["<table>", "<table><tr><td>", "<table><tbody>"]));
+                    open_table = true;
+                }
+            },
+            10 => out.push_str(rng.pick_str(&["<script></script>", "<input>", "<select>", "<textarea>", "<keygen>", "<p>"])),
+            _ => out.push_str(rng.pick_str(&["t", " ", "</select>", "</button>", "<template>", "</template>"])),
+        }
+    }
+    if rng.chance(1, 2) {
+        out.push_str("</select>");
+    }
+}
+
+/// A token with a big payload (text, attribute value, tag name, doctype identifiers) at a place
+/// where the tree builder reports it as unexpected: exact error messages carry a dump of it.
+pub fn gen_big_unexpected_token(rng: &mut Rng) -> String {
+    let mut out = String::new();
+    let mut n = near_threshold(rng).min(20_000);
+    if rng.chance(1, 3) {
+        n += rng.below(n / 2 + 1);
+    }
+    let filler = *rng.pick(&['x', 'é', 'é', '中', '中', '\u{65e5}', '😀', '"', '\'', '\\']);
+    let payload: String = {
+        let mut p = String::new();
+        for _ in 0..rng.below(4) {
+            p.push('a');
+        }
+        while p.len() < n {
+            p.push(filler);
+        }
+        p
+    };
+    match rng.below(9) {
+        0 => out.push_str(&format!("</body>{payload}")),
+        1 => out.push_str(&format!("</html>{payload}<p>")),
+        2 => out.push_str(&format!("<frameset>{payload}</frameset>{payload}")),
+        3 => out.push_str(&format!("<table>{payload}<tr><td>x")),
+        4 => out.push_str(&format!("<table><b>{payload}</table>")),
+        5 => out.push_str(&format!("<p></{payload}><div></div title='{payload}'>")),
+        6 => out.push_str(&format!("<div><frameset cols=\"{payload}\"><body class=\"{payload}\">")),
+        7 => out.push_str(&format!("<!DOCTYPE html><p><!DOCTYPE {payload} PUBLIC \"{payload}\"><head title={payload}>")),
+        _ => out.push_str(&format!("<table><{payload}></table><select><input value='{payload}'>")),
+    }
+    out
+}
+
+/// Around `<frameset>`: content that keeps "frameset-ok" (or not), foreign elements with HTML
+/// structure names, integration points, then the frameset and what may follow it.
+pub fn gen_frameset_scenario(rng: &mut Rng, out: &mut String) {
+    if rng.chance(1, 6) {
+        gen_doctype(rng, out);
+    }
+    for _ in 0..rng.small(5) {
+        out.push_str(rng.pick_str(&[
+            " ", "\n", "<!--c-->", "<div>", "<p>", "<span>", "<svg>", "<math>", "<svg><html>", "<svg><body>", "<math><html>", "<svg><frameset>",
+            "<foreignObject>", "<svg><foreignObject>", "<desc>", "<svg><title>", "<mi>", "<math><mi>", "<annotation-xml encoding=text/html>",
+            "<b>", "<a>", "<tt>", "<head>", "</head>", "<body>", "<html a=b>", "<template>", "</template>", "<ul>", "<center>", "<table>", "x",
+            "<input type=hidden>", "<br>", "</p>", "<noframes></noframes>", "<title></title>", "<svg><head>", "<math><body>",
+        ]));
+    }
+    out.push_str(rng.pick_str(&["<frameset>", "<frameset>", "<frameset cols=1>", "<FRAMESET>"]));
+    for _ in 0..rng.small(6) {
+        out.push_str(rng.pick_str(&[
+            "<frame>", "</frameset>", "<frameset>", "x", " ", "\n", "<noframes>", "</noframes>", "</html>", "<!--c-->", "<b>", "<p>", "<svg>", "</body>",
+            "<body>", "<html x=y>", "<template>", "<script></script>", "<tt>", "</FRameSET>", "<a>", "</svg>",
+        ]));
+    }
+}
+
+/// Inputs that probe size thresholds (lengths, counts, depths) instead of syntax.
+pub fn gen_scale_input(rng: &mut Rng) -> String {
+    let mut out = String::new();
+    if rng.chance(1, 8) {
+        gen_doctype(rng, &mut out);
+    }
+    match rng.below(9) {
+        0 | 1 => {
+            // one long run of text in some context
+            out.push_str(rng.pick_str(&[
+                "", "", "", "<p>", "<pre>", "<pre>\n", "<textarea>", "<title>", "<script>", "<style>", "<!--", "<a href=\"", "<a title='",
+                "<plaintext>", "<svg><![CDATA[", "<table>", "<table><b>", "</body>", "</html>", "<frameset>", "<select>", "<!DOCTYPE ",
+                "<xmp>", "&", "<div class=", "<", "</", "<!DOCTYPE a PUBLIC \"", "<a ", "<listing>\n", "<svg><desc>", "<math><mtext>", "<noscript>",
+                "<table><tr><td>", "<template>", "<option>", "<b><i>", "<ruby><rt>",
+            ]));
+            let mut n = near_threshold(rng);
+            if rng.chance(1, 3) {
+                // caps bite anywhere beyond the mark, not only next to it
+                n += rng.below(n / 2 + 1);
+            }
+            long_run(rng, n, &mut out);
+            out.push_str(rng.pick_str(&["", "", "</p>", "\n<b>x", "\">", "'>", "-->", "</script>", "</textarea>x", "</title>", "]]>", "</table>", "<p>\n", ">", "\" \"s\">"]));
+            if rng.chance(1, 3) {
+                let n = near_threshold(rng).min(5000);
+                long_run(rng, n, &mut out);
+            }
+        },
+        2 => {
+            // many siblings under one parent, then something that looks a node up or moves it
+            out.push_str(rng.pick_str(&["", "<div>", "<ul>", "<table>", "<table><tr>", "<select>", "</body>", "</html>", "<div></div></body>", "<template>", "<svg>", "<p>", "<b>", "<head>"]));
+            let item = rng.pick_str(&["<!--c-->", "<br>", "<p>x", "<li>", "<td>", "<tr>", "<option>", "x<b></b>", "<i>", "<hr>", "<g/>", "<span></span>", "t<!---->", "<meta>", "<col>", "<div></div>"]);
+            for _ in 0..near_count(rng) {
+                out.push_str(item);
+            }
+            for _ in 0..rng.range(1, 3) {
+                out.push_str(rng.pick_str(&["<frameset>", "</div>", "x", "<table>", "</table>", "<script></script>", "<body a=b>", "</p>", "<frameset></frameset>", "</select>", "<caption>", "</b>", "<tr>", "text", "</ul>"]));
+            }
+        },
+        3 => {
+            // deep stack of open elements, a pause, then closers and text
+            let tag = rng.pick_str(&["<div>", "<b>", "<span>", "<i>", "<a>", "<font>", "<p>", "<ul><li>", "<table><tr><td>", "<svg>", "<template>", "<button>", "<dl><dd>", "<nobr>", "<g>", "<section>"]);
+            let n = near_count(rng).min(130);
+            out.push_str(rng.pick_str(&["", "", "<body>", "<p>", "<table><td>", "<svg>"]));
+            for _ in 0..n {
+                out.push_str(tag);
+            }
+            out.push_str(rng.pick_str(&["", "<script></script>", "<script>s</script>", "x"]));
+            for _ in 0..rng.small(4) {
+                out.push_str(rng.pick_str(&["</div>", "</b>", "</span>", "</p>", "</a>", "</table>", "</svg>", "</template>", "x", "<p>", "</body>", "</i>", "</font>", "<td>", "</li>"]));
+            }
+        },
+        4 => {
+            // many attributes, duplicates at the far ends; a second tag that merges attributes
+            let tag = rng.pick_str(&["div", "a", "html", "body", "svg", "math", "meta", "input", "x"]);
+            let n = near_count(rng).min(257);
+            for round in 0..rng.range(1, 2) {
+                out.push('<');
+                out.push_str(tag);
+                for i in 0..n {
+                    out.push_str(&format!(" a{}={}", if rng.chance(1, 40) { 0 } else { i + round * (n / 2) }, i % 10));
+                }
+                if rng.chance(1, 2) {
+                    out.push_str(" a0=dup");
+                }
+                out.push('>');
+            }
+        },
+        5 => {
+            // identical formatting elements (Noah's ark clause), mis-nested closers, a pause
+            out.push_str(rng.pick_str(&["", "<i>", "<a>", "<p>", "<table>", "<div>", "<nobr>"]));
+            let f = rng.pick_str(&["<b>", "<i>", "<font>", "<font color=x>", "<em>", "<nobr>", "<a href=u>", "<b id=1>", "<u>"]);
+            for _ in 0..rng.range(3, 9) {
+                out.push_str(f);
+                if rng.chance(1, 6) {
+                    out.push_str(rng.pick_str(&["<b>", "<i x=y>", "x", "<p>"]));
+                }
+            }
+            for _ in 0..rng.range(1, 6) {
+                out.push_str(rng.pick_str(&["</b>", "</i>", "</font>", "</a>", "</em>", "</nobr>", "<div>", "<p>", "x", "<table>", "<script></script>", "</p>", "</div>", "<tr>", "</u>"]));
+            }
+        },
+        6 => gen_select_scenario(rng, &mut out),
+        7 => {
+            // long names and identifiers
+            let n = near_threshold(rng).min(20_000);
+            let name: String = (0..n).map(|i| (b'a' + (i % 26) as u8) as char).collect();
+            match rng.below(6) {
+                0 => out.push_str(&format!("<{name} {name}={name}>x</{name}>")),
+                1 => out.push_str(&format!("<!DOCTYPE {name} PUBLIC \"{name}\" '{name}'>")),
+                2 => out.push_str(&format!("&{name};<p>&#{}", "9".repeat(n.min(400)))),
+                3 => out.push_str(&format!("<a {name}>")),
+                4 => out.push_str(&format!("<!--{name}--!{name}-->")),
+                _ => out.push_str(&format!("<svg><{name}/><![CDATA[{name}]]>")),
+            }
+        },
+        _ => {
+            // a long run behind ordinary content
+            gen_node(rng, &mut out, 3);
+            let n = near_threshold(rng);
+            long_run(rng, n, &mut out);
+            gen_node(rng, &mut out, 3);
+        },
+    }
+    out
 }
 
 /// Structural mutation on char spans so that markup is malformed most of the time.
